@@ -32,6 +32,9 @@ type World struct {
 	Roots   []string // names of root handles (live roots and detached containers kept by the caller)
 	canon   map[atree.SlabID]int
 	Workers int
+	// digest assignment for root maps created through this world
+	DigTable   map[int][4]uint64
+	DigDefault func(id int) [4]uint64
 }
 
 func NewWorld(T uint32) *World {
@@ -464,7 +467,8 @@ type RootObs struct {
 	N    int       `json:"n"`   // Count()
 	Ti   string    `json:"ti"`
 	Abs  []AbsElem `json:"abs"`
-	F    []*Node   `json:"F"` // exactly one node
+	Kds  [][]int   `json:"kds"` // maps with a table digester: digest vector of every key, in iteration order
+	F    []*Node   `json:"F"`   // exactly one node
 }
 
 type StoreObs struct {
@@ -487,7 +491,7 @@ func (w *World) Observe() ([]RootObs, StoreObs) {
 	roots := []RootObs{}
 	for _, name := range w.Roots {
 		h := w.H[name]
-		ro := RootObs{Name: name, Kind: h.Kind}
+		ro := RootObs{Name: name, Kind: h.Kind, Kds: [][]int{}}
 		root := w.rootSlabOf(h)
 		n := p.nodeOfSlab(root)
 		ro.F = []*Node{n}
@@ -500,6 +504,12 @@ func (w *World) Observe() ([]RootObs, StoreObs) {
 			ro.N = int(h.Map.Count())
 			ro.Ti = tiString(h.Map.Type())
 			ro.Abs = w.absMap(h.Map)
+			if h.Dig != nil {
+				for i := 0; i+1 < len(ro.Abs); i += 2 {
+					v := h.Dig.Vec(ro.Abs[i].V)
+					ro.Kds = append(ro.Kds, []int{int(v[0]), int(v[1]), int(v[2]), int(v[3])})
+				}
+			}
 		}
 		roots = append(roots, ro)
 	}
